@@ -430,6 +430,14 @@ func runC15(c *an.Ctx) {
 					tested = append(tested, tempName.ReplaceAllString(an.Expr(a), ""))
 				}
 			}
+			// the other spelling of the emptiness test: l == ""
+			if b, ok := in.(*ssa.BinOp); ok && (b.Op == token.EQL || b.Op == token.NEQ) {
+				for _, pair := range [][2]ssa.Value{{b.X, b.Y}, {b.Y, b.X}} {
+					if cst, isC := pair[1].(*ssa.Const); isC && an.Expr(cst) == `""` && isStringType(pair[0].Type()) {
+						tested = append(tested, tempName.ReplaceAllString(an.Expr(pair[0]), ""))
+					}
+				}
+			}
 		})
 		ok := len(appended) >= 1 && len(tested) >= 1
 		for _, a := range appended {
